@@ -66,6 +66,15 @@ def gen_cases(tier, seed):
         for i, plan in enumerate(itertools.chain(plist, deep)):
             yield {'name': name, 'program': prog, 'plan': plans.uniq(plan, 'q%d' % i), 'drain': True, 'probe': False,
                           'barrage': False, 'listener': True}
+        # the requests come from code whose current event loop is another one than the loop the process was built for (a synchronous
+        # driver that runs the process's loop in slices and acts in between): requests at the successive quiescent points
+        Q = lambda *acts: [{'at': 'q', 'act': list(a)} for a in acts]  # noqa: E731
+        for j, plan in enumerate([Q(['pause', 'p'], ['play']), Q(['pause', 'p'], ['play'], ['pause', 'p2'], ['play']), Q(['pause', 'p'], ['resume', ['v']], ['play']),
+                                  Q(['pause', 'p'], ['play'], ['resume', ['v']]), [{'at': 1, 'act': ['pause', 'p']}] + Q(['play'], ['pause', 'p2'], ['play']),
+                                  # (slot 0: before the process is first stepped)
+                                  [{'at': 0, 'act': ['pause', 'p']}] + Q(['play']), [{'at': 0, 'act': ['pause', 'p']}] + Q(['play'], ['pause', 'p2'], ['play'])]):
+            yield {'name': name, 'program': prog, 'plan': plans.uniq(plan, 'f%d' % j), 'drain': True, 'probe': False, 'barrage': False, 'listener': True,
+                   'foreign_loop_outside': True}
         # pause()/play() never raise -- also not on a process that was killed (while paused, pausing, ...) or otherwise terminated:
         # one pause + one kill at every pair of slots, then every control call again on the terminated process
         for p in plans.all_placements(n, [['pause', 'p'], ['kill', 'k'], ['play']], 2):
